@@ -96,7 +96,8 @@ func getCountsForContext(ctxType CompletionContextType, result *analyzer.Analysi
 }
 
 func rankCompletionItemsByScore(scored []scoredItem, counts map[string]int, query string) []protocol.CompletionItem {
-	sort.Slice(scored, func(i, j int) bool {
+	// Stable sort: items with equal score and count keep their (deterministic) input order.
+	sort.SliceStable(scored, func(i, j int) bool {
 		if scored[i].score != scored[j].score {
 			return scored[i].score > scored[j].score
 		}
